@@ -1464,6 +1464,7 @@ structure StOK (PE : Entry → Prop) (S : List Nat) (st : TState) : Prop where
   gcache : ∀ p ∈ st.gcache, PE p.2
   augs : ∀ p ∈ st.augs, ∀ a ∈ p.2, PE a
   keys : ∀ p ∈ st.augs, p.1 ∈ st.cache.map (·.1) ∨ p.1 ∈ S
+  ckind : ∀ p ∈ st.cache, p.2.d.kind = .directory
 
 /-- What the induction hypothesis gives for the recursive calls. -/
 def RecOK (PE : Entry → Prop) (rec : Rec) : Prop :=
@@ -1541,7 +1542,7 @@ theorem usesFold_ok (l : List Stmt) (acc : Entry × TState) (h : AccOK PE S acc)
 
 omit hC hrec in
 theorem stOK_merged (st : TState) (m : List String) (h : StOK PE S st) : StOK PE S { st with merged := m } :=
-  ⟨h.cache, h.gcache, h.augs, h.keys⟩
+  ⟨h.cache, h.gcache, h.augs, h.keys, h.ckind⟩
 
 
 theorem includeFold_ok (l : List Stmt) (acc : Entry × TState) (h : AccOK PE S acc) :
@@ -1682,7 +1683,7 @@ theorem stepFn_ok (isMod : Bool) (hS : isMod = true → root.seq ∈ S) (acc : E
     · rename_i hm
       have hm' : isMod = true := by simpa using hm
       obtain ⟨a1, a2⟩ := augFold_ok hrec root sub visiting S (n.all "augment") st hst
-      refine ⟨he, ⟨a2.cache, a2.gcache, ?_, ?_⟩⟩
+      refine ⟨he, ⟨a2.cache, a2.gcache, ?_, ?_, a2.ckind⟩⟩
       · intro p hp
         rcases List.mem_append.mp hp with hp | hp
         · exact a2.augs p hp
@@ -1737,10 +1738,11 @@ theorem steps_ok (isMod : Bool) (hS : isMod = true → root.seq ∈ S) (st : TSt
 
 omit hC in
 theorem stOK_weaken (x : Nat) (st : TState) (h : StOK PE S st) : StOK PE (x :: S) st :=
-  ⟨h.cache, h.gcache, h.augs, fun p hp => (h.keys p hp).imp id (fun h => List.mem_cons_of_mem _ h)⟩
+  ⟨h.cache, h.gcache, h.augs, fun p hp => (h.keys p hp).imp id (fun h => List.mem_cons_of_mem _ h), h.ckind⟩
 
 include hrec in
-theorem dirBody_ok (scope : List Stmt) (st : TState) (hst : StOK PE S st) (isMod : Bool) :
+theorem dirBody_ok (scope : List Stmt) (st : TState) (hst : StOK PE S st) (isMod : Bool)
+    (hmk : isMod = true → kindOfKw n.kw = .directory) :
     PE (dirBody env rec root scope n visiting st isMod).1 ∧
       StOK PE S (dirBody env rec root scope n visiting st isMod).2 := by
   unfold dirBody
@@ -1750,7 +1752,14 @@ theorem dirBody_ok (scope : List Stmt) (st : TState) (hst : StOK PE S st) (isMod
     simp only [if_true]
     have := steps_ok hC hrec root n (n :: scope) visiting (root.seq :: S) true (fun _ => List.mem_cons_self)
       st (stOK_weaken S _ st hst)
-    refine ⟨this.1, ⟨?_, this.2.gcache, this.2.augs, ?_⟩⟩
+    have hkind := (rootKeep_fold_steps env rec root n (n :: scope) visiting true (fieldOrder n.kw) (e0 root n, st)).2.1
+    refine ⟨this.1, ⟨?_, this.2.gcache, this.2.augs, ?_, ?_⟩⟩
+    rotate_left 2
+    · intro p hp
+      rcases List.mem_append.mp hp with hp | hp
+      · exact this.2.ckind p hp
+      · simp only [List.mem_singleton] at hp; subst hp
+        exact hkind.trans ((e0_data root n).2.1.trans (hmk rfl))
     · intro p hp
       rcases List.mem_append.mp hp with hp | hp
       · exact this.2.cache p hp
@@ -1769,7 +1778,7 @@ theorem dirBody_ok (scope : List Stmt) (st : TState) (hst : StOK PE S st) (isMod
     · exact ⟨this.1, ⟨this.2.cache, fun p hp => by
         rcases List.mem_append.mp hp with hp | hp
         · exact this.2.gcache p hp
-        · simp only [List.mem_singleton] at hp; subst hp; exact this.1, this.2.augs, this.2.keys⟩⟩
+        · simp only [List.mem_singleton] at hp; subst hp; exact this.1, this.2.augs, this.2.keys, this.2.ckind⟩⟩
     · exact this
 
 include hrec in
@@ -1802,7 +1811,10 @@ theorem toEntryBody_ok (fuel : Nat) (scope : List Stmt) (st : TState) (hst : StO
               · exact ⟨hC.errE _ _ _, hst⟩
               · obtain ⟨r1, r2, _, _⟩ := hrec _ _ _ _ st S hst
                 exact ⟨r1, r2⟩
-            · exact dirBody_ok hC hrec root n _ S scope st hst _
+            · refine dirBody_ok hC hrec root n _ S scope st hst _ ?_
+              intro hm
+              simp only [Bool.or_eq_true, beq_iff_eq] at hm
+              rcases hm with hm | hm <;> rw [hm] <;> decide
 
 end Body
 
@@ -2137,7 +2149,7 @@ theorem closed_U (env : Env) : Closed env U where
 /-! ### the conversion of all modules -/
 
 theorem stOK_empty (PE : Entry → Prop) (S : List Nat) : StOK PE S {} :=
-  ⟨by simp, by simp, by simp, by simp⟩
+  ⟨by simp, by simp, by simp, by simp, by simp⟩
 
 theorem tstate_ok (reg : Registry) (opts : Opts) (plug : Plug) {PE : Entry → Prop}
     (hC : Closed (envOf reg opts plug) PE) : StOK PE [] (tstate reg opts plug) := by
@@ -3225,5 +3237,187 @@ theorem tinv_find (reg : Registry) (f : Forest) (start : Loc) (ctx : Nat) (name 
     (fun e x h => tinv_addErr hq e x h) reg f start ctx name hf hs
 
 end TInvLemmas
+
+theorem merge_shape (e : Entry) (ns : Option String) (oe : Entry) :
+    (∀ y ∈ e.dir, y ∈ (e.merge ns oe).dir) ∧ (e.merge ns oe).inp = e.inp ∧ (e.merge ns oe).out = e.out := by
+  unfold Entry.merge
+  refine foldl_inv (fun x : Entry => (∀ y ∈ e.dir, y ∈ x.dir) ∧ x.inp = e.inp ∧ x.out = e.out) _ _ _ ?_ ?_
+  · cases e with | mk d c i o =>
+    simp [Entry.importErrors, Entry.addErrs, Entry.withD, Entry.dir, Entry.inp, Entry.out]
+  · rintro b a _ ⟨h1, h2, h3⟩
+    dsimp only
+    split
+    · cases b with | mk d c i o => exact ⟨h1, h2, h3⟩
+    · cases b with | mk d c i o =>
+      simp only [Entry.dir, Entry.inp, Entry.out, Entry.withDir] at h1 h2 h3 ⊢
+      exact ⟨fun y hy => List.mem_append.mpr (Or.inl (h1 y hy)), h2, h3⟩
+
+theorem noErrors_merge_left (e : Entry) (ns : Option String) (oe : Entry) (h : NoErrors (e.merge ns oe)) : NoErrors e := by
+  obtain ⟨h1, h2, h3⟩ := merge_shape e ns oe
+  obtain ⟨xs, hxs⟩ := merge_root_errors e ns oe
+  generalize e.merge ns oe = r at h h1 h2 h3 hxs
+  cases r with | mk d' c' i' o' =>
+  cases e with | mk d c i o =>
+  simp only [Entry.dir, Entry.inp, Entry.out, Entry.d] at h1 h2 h3 hxs
+  subst h2 h3
+  rw [noErrors_mk] at h ⊢
+  refine ⟨?_, fun x hx => h.2.1 x (h1 x hx), h.2.2⟩
+  have := h.1; rw [hxs] at this
+  simp only [List.append_eq_nil_iff] at this
+  exact this.1.1
+
+theorem pendingOf_mem (s : PState) (id : Nat) (a : Entry) (h : a ∈ s.pendingOf id) : ∃ p ∈ s.pending, a ∈ p.2 := by
+  unfold PState.pendingOf at h
+  cases hf : s.pending.find? (·.1 == id) with
+  | none => simp [hf] at h
+  | some p =>
+    simp only [hf, Option.map_some, Option.getD_some] at h
+    exact ⟨p, List.mem_of_find?_eq_some hf, h⟩
+
+section AugInv
+variable {env : Env} {q : Entry → Bool} (hq : LocalOK env q)
+include hq
+
+/-- Merging an augment into the node a proper path leads to. -/
+theorem tinv_merge_at (root : Entry) (path : Path) (te a : Entry) (ns : Option String) (h : TInv q root)
+    (hp : PathOK path) (hg : root.getAt path = some te) (ha : TInv q a) :
+    TInv q (root.updateAt path fun te => te.merge ns a) := by
+  have hute := U_getAt path root te h.1 hg
+  refine ⟨U_updateAt (fun te => te.merge ns a) te (U_merge te ns a hute ha.1) (rootKeep_merge te ns a).1 path root h.1 hp hg, ?_⟩
+  refine cond_updateAt q hq.hdr _ te (noErrors_merge_left te ns a) ?_ ?_ path root h.1 hp hg h.2
+  · intro hn hte
+    exact cond_merge hq te ns a (fun _ => hte) ha.2 hn
+  · have := rootKeep_merge te ns a
+    exact Prod.ext this.1 this.2.1
+
+end AugInv
+
+/-! ### the augment stage keeps any tree invariant that its three operations keep -/
+
+/-- What the augment stage needs of a tree invariant `P` (and of an invariant `PA` of pending augments). -/
+structure AugClosed (P PA : Entry → Prop) : Prop where
+  find : ∀ (reg : Registry) (f : Forest) (start : Loc) (ctx : Nat) (name : String), ForestAll P f → PathOK start.2 →
+    ForestAll P (find reg f start ctx name).2 ∧ ∀ t path, (find reg f start ctx name).1 = some (t, path) → PathOK path
+  addErr : ∀ (e : Entry) (x : Err), P e → P (e.addErr x)
+  mergeAt : ∀ (root : Entry) (path : Path) (te a : Entry) (ns : Option String), P root → PathOK path →
+    root.getAt path = some te → PA a → P (root.updateAt path fun te => te.merge ns a)
+
+/-- The state invariant of the augment stage. -/
+structure AInv (P PA : Entry → Prop) (s : PState) : Prop where
+  trees : ForestAll P s.forest
+  pend : ∀ p ∈ s.pending, ∀ a ∈ p.2, PA a
+
+section AugGeneric
+variable {P PA : Entry → Prop} (hA : AugClosed P PA)
+include hA
+
+theorem augFail_inv (id : Nat) (addErrors : Bool) (a : Entry) (s : PState) (un : List Entry) (p k : Nat)
+    (hf : ForestAll P s.forest) : ForestAll P (augFail id addErrors a s un p k).1.forest := by
+  unfold augFail
+  dsimp only
+  split
+  · split
+    · rename_i root hroot
+      exact forestAll_setTree _ _ _ hf (hA.addErr _ _ (forestAll_tree? _ _ _ hf hroot))
+    · exact hf
+  · exact hf
+
+theorem augStep_inv (reg : Registry) (id : Nat) (addErrors : Bool) (nsOf : String)
+    (acc : PState × List Entry × Nat × Nat) (a : Entry) (hf : ForestAll P acc.1.forest) (ha : PA a) :
+    ForestAll P (augStep reg id addErrors nsOf acc a).1.forest := by
+  obtain ⟨s, un, p, k⟩ := acc
+  dsimp only at hf
+  have hfind := hA.find reg s.forest (id, []) a.d.nodeMod a.d.name hf pathOK_nil
+  unfold augStep
+  dsimp only
+  generalize find reg s.forest (id, []) a.d.nodeMod a.d.name = r at hfind
+  obtain ⟨target, forest⟩ := r
+  dsimp only at hfind ⊢
+  have fail := augFail_inv hA id addErrors a { s with forest := forest } un p k hfind.1
+  split
+  · exact fail
+  · rename_i t path
+    have hpath : PathOK path := hfind.2 t path rfl
+    split
+    · exact fail
+    · rename_i te hte
+      split
+      · exact fail
+      · split
+        · exact fail
+        · rename_i root hroot
+          dsimp only at hroot hte ⊢
+          simp only [hroot, Option.bind_some] at hte
+          exact forestAll_setTree _ _ _ hfind.1
+            (hA.mergeAt root path te a (some nsOf) (forestAll_tree? _ _ _ hfind.1 hroot) hpath hte ha)
+
+theorem augmentTree_ainv (reg : Registry) (id : Nat) (addErrors : Bool) (s : PState) (h : AInv P PA s) :
+    AInv P PA (augmentTree reg id addErrors s).1 := by
+  obtain ⟨un, _, hp, hsub, _, _⟩ := augmentTree_ok reg id addErrors s
+  refine ⟨?_, ?_⟩
+  · rw [augmentTree_eq]
+    dsimp only
+    refine foldl_inv (fun acc : PState × List Entry × Nat × Nat => ForestAll P acc.1.forest) _ _ _ h.trees ?_
+    intro acc a ha hacc
+    obtain ⟨p, hp, hap⟩ := pendingOf_mem s id a ha
+    exact augStep_inv hA reg id addErrors _ acc a hacc (h.pend p hp a hap)
+  · rw [hp]
+    intro p hp' a ha
+    simp only [List.mem_map] at hp'
+    obtain ⟨ip, hip, rfl⟩ := hp'
+    split at ha
+    · obtain ⟨p0, hp0, h0⟩ := pendingOf_mem s id a (hsub a ha)
+      exact h.pend p0 hp0 a h0
+    · exact h.pend ip hip a ha
+
+theorem augmentPass_ainv (reg : Registry) : ∀ (fuel : Nat) (mods : Array Nat) (i processed : Nat) (s : PState),
+    AInv P PA s → AInv P PA (augmentPass reg fuel mods i processed s).2.2 := by
+  intro fuel
+  induction fuel with
+  | zero => intro mods i processed s h; exact h
+  | succ fuel ih =>
+    intro mods i processed s h
+    unfold augmentPass
+    split
+    · have := augmentTree_ainv hA reg mods[i] false s h
+      generalize augmentTree reg mods[i] false s = r at this ⊢
+      obtain ⟨s', p, k⟩ := r
+      dsimp only at this ⊢
+      split
+      · exact ih _ _ _ _ this
+      · exact ih _ _ _ _ this
+    · exact h
+
+theorem augmentLoop_ainv (reg : Registry) : ∀ (fuel : Nat) (mods : Array Nat) (s : PState),
+    AInv P PA s → AInv P PA (augmentLoop reg fuel mods s).2 := by
+  intro fuel
+  induction fuel with
+  | zero => intro mods s h; exact h
+  | succ fuel ih =>
+    intro mods s h
+    unfold augmentLoop
+    split
+    · exact h
+    · have := augmentPass_ainv hA reg (mods.size + 1) mods 0 0 s h
+      generalize augmentPass reg (mods.size + 1) mods 0 0 s = r at this ⊢
+      obtain ⟨mods', processed, s'⟩ := r
+      dsimp only at this ⊢
+      split
+      · exact this
+      · exact ih _ _ this
+
+theorem leftover_ainv (reg : Registry) (left : Array Nat) (s : PState) (h : AInv P PA s) :
+    AInv P PA (left.foldl (fun (acc : PState × Nat) id =>
+      let (s, p, _) := augmentTree reg id true acc.1
+      (s, acc.2 + p)) (s, 0)).1 := by
+  rw [← Array.foldl_toList]
+  refine foldl_inv (fun acc : PState × Nat => AInv P PA acc.1) _ _ _ h ?_
+  rintro ⟨s, cnt⟩ id _ hs
+  have := augmentTree_ainv hA reg id true s hs
+  generalize augmentTree reg id true s = r at this ⊢
+  obtain ⟨s', p, k⟩ := r
+  exact this
+
+end AugGeneric
 
 end Goyang.Lemmas.Tree
